@@ -2,10 +2,10 @@ package rules
 
 import (
 	"fmt"
-	"go/ast"
 	"go/constant"
 	"go/token"
 	"go/types"
+	"math/big"
 	"sort"
 	"strings"
 
@@ -46,8 +46,86 @@ func renderExpr(v ssa.Value, depth int) string {
 		return n[strings.LastIndex(n, "/")+1:] + "(" + strings.Join(as, ",") + ")"
 	case *ssa.Phi:
 		return "phi"
+	case *ssa.UnOp:
+		// a load of a local that is written once (a variable captured by a closure lives in an Alloc)
+		if x.Op == token.MUL {
+			if sv := singleStore(x.X); sv != nil {
+				return renderExpr(sv, depth+1)
+			}
+		}
+	case *ssa.FreeVar:
+		if b := freeVarBinding(x); b != nil {
+			return renderExpr(b, depth+1)
+		}
 	}
 	return "?"
+}
+
+// freeVarBinding: what the enclosing function binds to a closure's free variable.
+func freeVarBinding(fv *ssa.FreeVar) ssa.Value {
+	fn := fv.Parent()
+	if fn == nil || fn.Parent() == nil {
+		return nil
+	}
+	idx := -1
+	for i, f := range fn.FreeVars {
+		if f == fv {
+			idx = i
+		}
+	}
+	var out ssa.Value
+	n := 0
+	for _, b := range fn.Parent().Blocks {
+		for _, in := range b.Instrs {
+			if mc, ok := in.(*ssa.MakeClosure); ok && mc.Fn == ssa.Value(fn) && idx >= 0 && idx < len(mc.Bindings) {
+				out = mc.Bindings[idx]
+				n++
+			}
+		}
+	}
+	if n != 1 {
+		return nil
+	}
+	return out
+}
+
+// singleStore: the one value stored into the local addr denotes (an Alloc, or a
+// captured one seen through a free variable); nil if it is written more than once.
+func singleStore(addr ssa.Value) ssa.Value {
+	if fv, ok := addr.(*ssa.FreeVar); ok {
+		addr = freeVarBinding(fv)
+	}
+	al, ok := addr.(*ssa.Alloc)
+	if !ok || al.Referrers() == nil {
+		return nil
+	}
+	var val ssa.Value
+	for _, r := range *al.Referrers() {
+		switch x := r.(type) {
+		case *ssa.Store:
+			if x.Addr == ssa.Value(al) {
+				if val != nil {
+					return nil
+				}
+				val = x.Val
+			}
+		case *ssa.MakeClosure:
+			// closures that capture it may write it: look for stores through their free variables
+			if cf, ok := x.Fn.(*ssa.Function); ok {
+				for i, bnd := range x.Bindings {
+					if bnd != ssa.Value(al) || i >= len(cf.FreeVars) || cf.FreeVars[i].Referrers() == nil {
+						continue
+					}
+					for _, rr := range *cf.FreeVars[i].Referrers() {
+						if st, ok := rr.(*ssa.Store); ok && st.Addr == ssa.Value(cf.FreeVars[i]) {
+							return nil
+						}
+					}
+				}
+			}
+		}
+	}
+	return val
 }
 
 // HeightMapBits implements T-HMBITS: every construction of a 16x16 height map
@@ -83,8 +161,8 @@ func (c *Ctx) HeightMapBits() []core.Ob {
 	}
 	sort.Strings(keys)
 	switch {
-	case n < 10:
-		o.Status, o.Got = core.Violated, fmt.Sprintf("only %d height-map constructions found", n)
+	case n < 1:
+		o.Status, o.Got = core.Violated, "no height-map construction (NewBitStorage(_, 16*16, _)) found in package level"
 	case len(keys) != 1:
 		var parts []string
 		for _, f := range keys {
@@ -112,17 +190,50 @@ func uniq(s []string) []string {
 // PaletteResizeCopiesAll: the resize branch of PaletteContainer.Set copies
 // every position of the old container.
 func (c *Ctx) PaletteResizeCopiesAll() []core.Ob {
-	fn := c.Fn("level.(*PaletteContainer).Set")
+	set := c.Fn("level.(*PaletteContainer).Set")
 	o := core.Ob{Rule: "R-ORDER", Key: "palette-resize:copies-every-position", Armed: true, Status: core.OK,
 		Want: "when the palette grows, the copy loop runs over i = 0 .. length-1 where length is the length the new storage is created with"}
-	if fn == nil {
+	if set == nil {
 		o.Status, o.Got = core.Violated, "level.(*PaletteContainer).Set not found"
 		return []core.Ob{o}
 	}
+	// the resize code: the method of PaletteContainer (Set itself or a helper it was moved to) that
+	// creates a new storage and re-inserts values through Set in a loop
+	var fn *ssa.Function
+	var news []ssa.CallInstruction
+	nCand := 0
+	for _, cand := range c.Funcs() {
+		if !inPkgs(cand, "level") || recvTypeName(core.FnName(cand)) != "PaletteContainer" {
+			continue
+		}
+		nb := callsIn(cand, func(nm string, _ *ssa.CallCommon) bool { return strings.HasSuffix(nm, "level.NewBitStorage") })
+		if len(nb) == 0 {
+			continue
+		}
+		loops := false
+		for _, lp := range naturalLoops(cand) {
+			for b := range lp.body {
+				for _, in := range b.Instrs {
+					if ci, ok := in.(ssa.CallInstruction); ok {
+						if sc := ci.Common().StaticCallee(); sc != nil && core.Origin(sc) == set {
+							loops = true
+						}
+					}
+				}
+			}
+		}
+		if loops {
+			fn, news = cand, nb
+			nCand++
+		}
+	}
+	if fn == nil || nCand != 1 {
+		o.Status, o.Got = core.Violated, fmt.Sprintf("%d methods of PaletteContainer create a new storage and copy into it through Set (want exactly one: the resize)", nCand)
+		return []core.Ob{o}
+	}
 	o.Pos, o.Func = c.P.Pos(fn.Pos()), core.FnName(fn)
-	news := callsIn(fn, func(nm string, _ *ssa.CallCommon) bool { return strings.HasSuffix(nm, "level.NewBitStorage") })
 	if len(news) != 1 {
-		o.Status, o.Got = core.Violated, fmt.Sprintf("%d NewBitStorage calls in Set", len(news))
+		o.Status, o.Got = core.Violated, fmt.Sprintf("%d NewBitStorage calls in %s", len(news), fn.Name())
 		return []core.Ob{o}
 	}
 	length := stripConv(news[0].Common().Args[1])
@@ -133,7 +244,7 @@ func (c *Ctx) PaletteResizeCopiesAll() []core.Ob {
 		for b := range lp.body {
 			for _, in := range b.Instrs {
 				if ci, ok := in.(ssa.CallInstruction); ok {
-					if sc := ci.Common().StaticCallee(); sc != nil && core.Origin(sc) == fn {
+					if sc := ci.Common().StaticCallee(); sc != nil && core.Origin(sc) == set {
 						hasCopy = true
 					}
 				}
@@ -237,13 +348,11 @@ func (c *Ctx) HeightMapKeys() []core.Ob {
 				continue
 			}
 			cl, ok := st.Val.(*ssa.Call)
-			if !ok || !strings.HasSuffix(calleeName(cl.Common()), "level.NewBitStorage") {
+			if !ok {
 				continue
 			}
-			if lk, ok := cl.Common().Args[2].(*ssa.Lookup); ok {
-				if key, ok := strConst(lk.Index); ok {
-					load[key] = stt.Field(fa.Field).Name()
-				}
+			if key, ok := storageKey(cl, nil, 0); ok {
+				load[key] = stt.Field(fa.Field).Name()
 			}
 		}
 	}
@@ -271,49 +380,176 @@ func (c *Ctx) HeightMapKeys() []core.Ob {
 	return obs
 }
 
-// intCaseClasses: the partition of integers induced by a switch over int
-// constants in fn: each class is the sorted list of case constants of one
-// clause ("default" for the default clause).
-func (c *Ctx) intCaseClasses(fnName string) ([]string, string) {
-	fn := c.Fn(fnName)
-	if fn == nil {
-		return nil, fnName + " not found"
+// storageKey: the constant map key whose value the call turns into a storage:
+// NewBitStorage(_, _, m["KEY"]) directly, or through a closure / helper that is
+// handed the key (loadHeightmap("KEY")).
+func storageKey(cl *ssa.Call, bind map[ssa.Value]ssa.Value, depth int) (string, bool) {
+	if depth > 2 {
+		return "", false
 	}
-	fd, pk := c.astFuncDecl(fn)
-	if fd == nil {
-		return nil, "no syntax for " + fnName
-	}
-	var classes []string
-	found := false
-	ast.Inspect(fd.Body, func(n ast.Node) bool {
-		sw, ok := n.(*ast.SwitchStmt)
-		if !ok || found {
-			return !found
+	resolve := func(v ssa.Value) ssa.Value {
+		if b, ok := bind[v]; ok {
+			return b
 		}
-		var cls []string
-		for _, s := range sw.Body.List {
-			cc := s.(*ast.CaseClause)
-			if cc.List == nil {
-				cls = append(cls, "default")
+		return v
+	}
+	if strings.HasSuffix(calleeName(cl.Common()), "level.NewBitStorage") && len(cl.Common().Args) == 3 {
+		if lk, ok := cl.Common().Args[2].(*ssa.Lookup); ok {
+			if k, ok := resolve(lk.Index).(*ssa.Const); ok && k.Value != nil && k.Value.Kind() == constant.String {
+				return constant.StringVal(k.Value), true
+			}
+		}
+		return "", false
+	}
+	g := cl.Common().StaticCallee()
+	if g == nil || len(g.Blocks) == 0 {
+		return "", false
+	}
+	nb := map[ssa.Value]ssa.Value{}
+	for i, p := range g.Params {
+		if i < len(cl.Common().Args) {
+			nb[p] = resolve(cl.Common().Args[i])
+		}
+	}
+	key, n := "", 0
+	for _, b := range g.Blocks {
+		for _, in := range b.Instrs {
+			r, ok := in.(*ssa.Return)
+			if !ok || len(r.Results) != 1 {
 				continue
 			}
-			var vs []string
-			for _, e := range cc.List {
-				tv, ok := pk.TypesInfo.Types[e]
-				if !ok || tv.Value == nil || tv.Value.Kind() != constant.Int {
-					return true
-				}
-				vs = append(vs, tv.Value.ExactString())
+			n++
+			inner, ok := r.Results[0].(*ssa.Call)
+			if !ok {
+				return "", false
 			}
-			cls = append(cls, strings.Join(vs, ","))
+			k, ok := storageKey(inner, nb, depth+1)
+			if !ok || (key != "" && k != key) {
+				return "", false
+			}
+			key = k
 		}
-		if len(cls) >= 3 {
-			classes, found = cls, true
+	}
+	return key, n > 0 && key != ""
+}
+
+// intCaseClasses: the partition of the small integers induced by the decisions
+// fn takes on the one value it compares with constants (its parameter, or a
+// local such as n := calcBitsPerValue(...)). The function's integer skeleton is
+// run with that value preset to each probe; two probes are in the same class
+// when the same blocks are entered until the run leaves the decision (a return
+// or a branch on something else). Independent of the spelling: switch with
+// constant lists, range tests (bits >= 1 && bits <= 4), if chains.
+func (c *Ctx) intCaseClasses(fn *ssa.Function, fnName string) ([]string, string) {
+	if fn == nil || len(fn.Blocks) == 0 {
+		return nil, fnName + " not found"
+	}
+	sizes := c.TLG().sizesOf(fn)
+	// the decided value: the integer value compared with constants most often
+	count := map[ssa.Value]int{}
+	consts := map[int64]bool{}
+	for _, b := range fn.Blocks {
+		for _, in := range b.Instrs {
+			bo, ok := in.(*ssa.BinOp)
+			if !ok {
+				continue
+			}
+			switch bo.Op {
+			case token.EQL, token.NEQ, token.LSS, token.LEQ, token.GTR, token.GEQ:
+			default:
+				continue
+			}
+			x, y := bo.X, bo.Y
+			if _, isC := x.(*ssa.Const); isC {
+				x, y = y, x
+			}
+			k, ok := constIntVal(y)
+			if !ok || !isIntegerType(x.Type(), sizes) {
+				continue
+			}
+			if _, isC := x.(*ssa.Const); isC {
+				continue
+			}
+			count[x]++
+			consts[k] = true
 		}
-		return !found
-	})
-	if !found {
-		return nil, "no switch over integer constants in " + fnName
+	}
+	var decided ssa.Value
+	for v, n := range count {
+		if decided == nil || n > count[decided] || (n == count[decided] && v.Name() < decided.Name()) {
+			decided = v
+		}
+	}
+	if decided == nil || count[decided] < 2 {
+		return nil, "no value compared with integer constants in " + fnName
+	}
+	probes := map[int64]bool{}
+	for v := int64(-2); v <= 40; v++ {
+		probes[v] = true
+	}
+	for k := range consts {
+		probes[k-1], probes[k], probes[k+1] = true, true, true
+	}
+	var ps []int64
+	for v := range probes {
+		ps = append(ps, v)
+	}
+	sort.Slice(ps, func(i, j int) bool { return ps[i] < ps[j] })
+	byTrace := map[string][]string{}
+	for _, v := range ps {
+		ev := &skelEval{c: c, sizes: sizes, preset: map[ssa.Value]*big.Int{decided: bi(v)}}
+		// the class of a probe: the first block entered, once the decided value has been compared,
+		// that does something other than comparing it (the body the decision selects)
+		var tr []string
+		started := false
+		ev.onBlock = func(b *ssa.BasicBlock) {
+			if len(tr) > 0 {
+				return
+			}
+			pure, compares := true, false
+			for _, in := range b.Instrs {
+				switch x := in.(type) {
+				case *ssa.BinOp:
+					if x.X == decided || x.Y == decided {
+						compares = true
+					} else {
+						pure = false
+					}
+				case *ssa.If, *ssa.Jump, *ssa.DebugRef:
+				case *ssa.Phi:
+					if bt, ok := x.Type().Underlying().(*types.Basic); !ok || bt.Kind() != types.Bool {
+						pure = false
+					}
+				default:
+					pure = false
+				}
+			}
+			if started && !(pure) {
+				tr = append(tr, fmt.Sprint(b.Index))
+				return
+			}
+			if compares {
+				started = true
+			}
+		}
+		var args []*big.Int
+		for _, p := range fn.Params {
+			if ssa.Value(p) == decided {
+				args = append(args, bi(v))
+			} else {
+				args = append(args, nil)
+			}
+		}
+		_, _ = ev.run(fn, args)
+		key := strings.Join(tr, ">")
+		byTrace[key] = append(byTrace[key], fmt.Sprint(v))
+	}
+	var classes []string
+	for _, vs := range byTrace {
+		classes = append(classes, strings.Join(vs, ","))
+	}
+	if len(classes) < 3 {
+		return nil, fmt.Sprintf("only %d decision classes found in %s", len(classes), fnName)
 	}
 	sort.Strings(classes)
 	return classes, ""
@@ -322,16 +558,52 @@ func (c *Ctx) intCaseClasses(fnName string) ([]string, string) {
 // PaletteConfig implements T-PALCFG.
 func (c *Ctx) PaletteConfig() []core.Ob {
 	var obs []core.Ob
-	for _, cfg := range []struct{ name, bits, create, ctor string }{
-		{"states", "level.(statesCfg).bits", "level.(statesCfg).create", "level.NewStatesPaletteContainerWithData"},
-		{"biomes", "level.(biomesCfg).bits", "level.(biomesCfg).create", "level.NewBiomesPaletteContainerWithData"},
+	for _, cfg := range []struct{ name, ctor string }{
+		{"states", "level.NewStatesPaletteContainerWithData"},
+		{"biomes", "level.NewBiomesPaletteContainerWithData"},
 	} {
 		o := core.Ob{Rule: "T-PALCFG", Key: cfg.name + ":case-partitions", Armed: true, Status: core.OK,
 			Want: "bits(), create() and the WithData constructor of the " + cfg.name + " configuration split the bits-per-entry values into the same classes"}
+		// the configuration type is whatever concrete type the exported constructor puts into the container's
+		// configuration slot; its two methods are told apart by their result type (int: the storage width)
+		ctor := c.Fn(cfg.ctor)
+		var bitsFn, cr *ssa.Function
+		if ctor != nil {
+			for _, b := range ctor.Blocks {
+				for _, in := range b.Instrs {
+					mi, ok := in.(*ssa.MakeInterface)
+					if !ok {
+						continue
+					}
+					named, ok := types.Unalias(mi.X.Type()).(*types.Named)
+					if !ok || named.Obj().Pkg() == nil || core.Rel(named.Obj().Pkg().Path()) != "level" {
+						continue
+					}
+					for _, m := range c.Funcs() {
+						if !inPkgs(m, "level") || m.Parent() != nil || recvTypeName(core.FnName(m)) != named.Obj().Name() || m.Signature.Results().Len() != 1 || m.Signature.Params().Len() != 1 {
+							continue
+						}
+						if bt, ok := m.Signature.Results().At(0).Type().Underlying().(*types.Basic); ok && bt.Kind() == types.Int {
+							bitsFn = m
+						} else {
+							cr = m
+						}
+					}
+				}
+			}
+		}
 		var parts []string
 		bad := ""
-		for _, f := range []string{cfg.bits, cfg.create, cfg.ctor} {
-			cls, why := c.intCaseClasses(f)
+		if ctor == nil {
+			bad = cfg.ctor + " not found"
+		} else if bitsFn == nil || cr == nil {
+			bad = "the configuration type of " + cfg.ctor + " (with its width and palette-construction methods) is not recognised"
+		}
+		for _, f := range []*ssa.Function{bitsFn, cr, ctor} {
+			if bad != "" {
+				break
+			}
+			cls, why := c.intCaseClasses(f, core.FnName(f))
 			if why != "" {
 				bad = why
 				break
@@ -345,12 +617,11 @@ func (c *Ctx) PaletteConfig() []core.Ob {
 		} else {
 			o.Got = parts[0]
 		}
-		if fn := c.Fn(cfg.bits); fn != nil {
-			o.Pos = c.P.Pos(fn.Pos())
+		if bitsFn != nil {
+			o.Pos = c.P.Pos(bitsFn.Pos())
 		}
 		obs = append(obs, o)
 		// palette capacity = 1 << recorded bits in create()
-		cr := c.Fn(cfg.create)
 		if cr == nil {
 			continue
 		}
@@ -364,19 +635,21 @@ func (c *Ctx) PaletteConfig() []core.Ob {
 				k++
 				p := core.Ob{Rule: "T-PALCFG", Key: fmt.Sprintf("%s:create-capacity#%d", cfg.name, k), Pos: c.P.Pos(ms.Pos()), Func: core.FnName(cr), Armed: true, Status: core.OK,
 					Want: "an indirect palette built by create() has capacity 1<<bits for the bits it records"}
-				// find the bits stored into the palette struct in the same block
-				var bitsV ssa.Value
+				// the width recorded in the palette struct built in the same block: an int field of it
+				var widths []ssa.Value
 				for _, in2 := range b.Instrs {
 					if st, ok := in2.(*ssa.Store); ok {
 						if fa, ok := st.Addr.(*ssa.FieldAddr); ok {
-							if stt, ok := deref(fa.X.Type()).Underlying().(*types.Struct); ok && stt.Field(fa.Field).Name() == "bits" {
-								bitsV = st.Val
+							if stt, ok := deref(fa.X.Type()).Underlying().(*types.Struct); ok {
+								if bt, ok := stt.Field(fa.Field).Type().Underlying().(*types.Basic); ok && bt.Kind() == types.Int {
+									widths = append(widths, st.Val)
+								}
 							}
 						}
 					}
 				}
 				capOK := false
-				if bitsV != nil {
+				for _, bitsV := range widths {
 					cv := stripConv(ms.Cap)
 					if kc, ok := constIntVal(cv); ok {
 						if kb, ok := constIntVal(bitsV); ok && kc == 1<<uint(kb) {
